@@ -300,8 +300,12 @@ func c08Run(c *core.Ctx) {
 				exh     bool
 			}
 			var doms []dom
-			alpha := c08Alphabet64(td.Bits, s == dyn.Float32)
-			if s == dyn.Float32 {
+			alpha := c08Alphabet64(td.Bits, isF32(s))
+			if ts.Named || td.Named {
+				// instantiations with a named type: the alphabet (and the context passes); the value
+				// lattices are covered by the built-in instantiation of the same width
+				doms = append(doms, dom{"alphabet", genList(alpha), fromKey, 1, true, false})
+			} else if isF32(s) {
 				if c.Quick() {
 					doms = append(doms, dom{"f32-lattice(sign,exponent,top 11 mantissa bits x 4 low fillers)", genRange(0, 2*f32LatM-1), f32Lattice, 16, true, false})
 					doms = append(doms, dom{"alphabet", genList(alpha), fromKey, 1, false, false})
